@@ -135,6 +135,23 @@ def gen_configs(tier: str, seed: int, *, faults: bool) -> list[dict]:
                 cfgs.append(make_cfg(kernel, W, Q, P, brk, nanv, maxdepth=3, crit=crit, extra=True, K=0))
                 if tier == "thorough":
                     cfgs.append(make_cfg(kernel, W, Q, P, brk, nanv, maxdepth=3, crit=crit, extra=False, K=0))
+    # designed long orbits on which the no-U-turn decisions taken on 4-state trees are NOT symmetric in the two
+    # sub-trees (ballistic motion, its mirror image, a slow U-turn, momenta whose sub-tree sums change sign): the
+    # random orbits above usually stop at the first doubling, so the order in which the sub-trees are handed to the
+    # criterion (left/right versus old/new) never mattered on them
+    designed = [
+        ([1, 2, 1, 1, 2, 1, 1, 2, 1, 1], list(range(10)), [1] * 10),
+        ([2, 1, 1, 2, 1, 1, 2, 1, 1, 2], list(range(9, -1, -1)), [-1] * 10),
+        ([1, 1, 2, 1, 1, 1, 2, 1, 1, 1], [0, 4, 7, 9, 10, 10, 9, 7, 4, 0], [4, 3, 2, 1, 1, -1, -2, -3, -4, -5]),
+        ([1, 2, 1, 1, 1, 2, 1, 1, 1, 2], [0, 2, 4, 3, 2, 4, 6, 5, 4, 6], [2, 2, -1, -1, 2, 2, -1, -1, 2, 2]),
+    ]
+    for W, Q, P in (designed if tier != "quick" else designed[:3]):
+        n = len(W)
+        brk = [1] + [0] * (n - 1) + [2]
+        for kernel, crit in (("multinomial", "euclid"), ("slice", "riem"), ("multinomial", "riem"), ("slice", "euclid")):
+            if tier == "quick" and (kernel, crit) in (("multinomial", "riem"), ("slice", "euclid")) and W is not designed[2][0]:
+                continue
+            cfgs.append(make_cfg(kernel, W, Q, P, brk, [False] * n, maxdepth=3, crit=crit, extra=True, K=0))
     for (W, Q, P, brk, nanv) in orbits:
         for kernel in KERNELS:
             variants = kernel_variants(rng, kernel, tier, faults)
